@@ -4,7 +4,7 @@ import json, os, glob
 ROOT = os.path.dirname(os.path.dirname(os.path.abspath(__file__)))
 print("| seeded change | breaks (clause) | needs | result of the registered quick check |")
 print("|---|---|---|---|")
-for d in sorted(glob.glob(os.path.join(ROOT, "seeded", "C*_m*"))):
+for d in sorted(glob.glob(os.path.join(ROOT, "seeded", "C*_*m*"))):
     name = os.path.basename(d)
     m = json.load(open(os.path.join(d, "meta.json")))
     det = json.load(open(os.path.join(d, "detect.json"))) if os.path.exists(os.path.join(d, "detect.json")) else {}
